@@ -79,18 +79,21 @@ Definition all_changes_opts (r : repo) (cp_tree b e : option tree) (pn : option 
 Definition all_changes (r : repo) (c : tree) (pn : option pending) : list path :=
   all_changes_opts r (Some c) None None pn.
 
-(* checkpoint update [--pending]: pending := checksums of the changes against the DEFAULT checkpoint
-   (empty id => `git diff HEAD`), kept unchanged when that list is empty or --pending is absent *)
-Definition update_pending (r : repo) (with_pending : bool) (old : option pending) : option pending :=
+(* checkpoint update [--pending]: with --pending, pending := checksums of the changes against the DEFAULT
+   checkpoint (empty id => `git diff HEAD`), or nothing when nothing is pending; without --pending the stored
+   map is left as it is.  [keep_stale]: the pinned commit kept the previous map when nothing was pending. *)
+Definition update_pending_with (keep_stale : bool) (r : repo) (with_pending : bool) (old : option pending) : option pending :=
   if with_pending then
     match all_changes_opts r None None None None with
-    | [] => old
+    | [] => if keep_stale then old else None
     | ch => Some (map (fun p => (p, checksum r p)) ch)
     end
   else old.
+Definition update_pending := update_pending_with false.
 
-Definition update_p (r : repo) (old : option pending) : tree * option pending :=
-  (head r, update_pending r true old).
+Definition update_p_with (keep_stale : bool) (r : repo) (old : option pending) : tree * option pending :=
+  (head r, update_pending_with keep_stale r true old).
+Definition update_p := update_p_with false.
 
 (* ---- the pinned commit passed --find-renames: with exact-content renames, `git diff --name-only` lists only
    the new name, so the deleted old path of a staged move is hidden (similarity-based detection is not modelled) *)
